@@ -69,7 +69,7 @@ CLAIMED = {
    note="Trusted: harness output port, reference counter, temp files for FileSource/SigMF recording. A runner never calls work() after EOF; the search does not either.", ref="DESIGN.md 3-E3, 5-C16"),
  "C17": dict(level="fault_enumeration", engine="faultx",
    technique="crash-point enumeration with strace: the sink's syscall history is recorded, then the child is re-run once per write syscall and SIGKILLed at entry of exactly that syscall (plus 'after the last'); open-mode table enumerated over modes x initial file states x sink kinds; plus deviation-bounded interleaving search of the real FileSink thread against a source thread committing in small pieces (file content vs committed stream)",
-   text="Every kill point of a 6-chunk (stream) and 4-packet history, for three open modes and both sinks, must leave a file that is a prefix of the serialised stream holding at least the bytes acknowledged so far (stream sink: consumed from the stream - seen through a consume hook that writes a marker syscall; packet sink: work() returned). The documented open-mode table (create fails iff exists; overwrite leaves exactly the new data; append keeps and adds, creating if absent) is checked for every initial state.",
+   text="Every kill point of a 6-chunk (stream) and 4-packet history, for three open modes and both sinks, must leave a file that is a prefix of the serialised stream holding at least the bytes acknowledged so far (stream sink: consumed from the stream - seen through a consume hook that writes a marker syscall; packet sink: work() returned, or a later packet already taken off the queue). The documented open-mode table (create fails iff exists; overwrite leaves exactly the new data; append keeps and adds, creating if absent) is checked for every initial state.",
    note="Trusted: strace's syscall injection (kill at syscall entry), the recorded history being reproducible (recorded twice and compared). Process kill, not power loss. Runs as root: permission-based unwritable files are not exercised.", ref="DESIGN.md 3-E5, 5-C17"),
  "C18": dict(level="fault_enumeration", engine="maps+faultx",
    technique="all create/drop sequences up to depth 5 (6) over 9 operations with /proc/self/maps and /proc/self/fd counted after every operation, an every-byte aliasing check through the public window API; fault-point enumeration with strace: an error injected at every openat/ftruncate/mmap of the recorded setup history",
